@@ -9,10 +9,28 @@ META = {
     "explanation": "printing structure (coefficient omitted iff 1, zero-coefficient entries dropped, ' + ' joins in stored order, inactive groups, the class's arrow, parameter and name parts) is proved for symbolic coefficients in the str/latex/unicode/html printers; _parse_multiplicity is proved to invert the printed term layout (str(n) + ' ' + key and n + ' * ' + key for every n >= 0, repeated species summed, allowed-key check); to_reaction's placement of the four parsed maps, parameter routes and missing-arrow rejection are proved modularly; _is_inactive_group is checked exhaustively on all strings over a 4-letter alphabet up to length 7; copy()/== proved on symbolic coefficients",
     "trusted_base": ["A9 model of re.split(' \\\\* | ', s) on concatenations whose symbolic pieces contain no space", "eval() of parameter text is external (results unconstrained)", "z3/cvc5 string theories"],
     "not_decided": ["split(join(...)) = id over unbounded term lists and full text round trips: bounded stand-in (print/parse round trip on generated reactions and systems)"],
-    "assumptions": ["species keys are concrete per harness; coefficients are symbolic"],
+    "assumptions": ["species keys are concrete per harness; coefficients are symbolic",
+                    "print -> parse of a SYSTEM gives an equal object when the species keys are handed to the parser again (ReactionSystem.__eq__ also compares the substances mapping: its order and its spectators are not in the text); from the text alone the obligation is: the same reactions over exactly the written species"],
 }
 PA = "chempy.util.parsing"
 ST = "chempy.printing.string"
+
+
+class _Raised(object):
+    """what _try hands back when the code under test raised: equal to nothing, so every comparison with an expected value fails"""
+    def __init__(self, ex):
+        self.ex = ex
+
+    def __repr__(self):
+        return "raised %s" % repr(self.ex)[:160]
+
+
+def _try(f):
+    """value of f() or a _Raised: data harnesses turn exceptions of the code under test into failed obligations, not into checker errors"""
+    try:
+        return f()
+    except Exception as ex:
+        return _Raised(ex)
 
 
 def _mk(v, cls, reac_keys, prod_keys, ireac=(), iprod=(), param=None, lo=0):
@@ -90,16 +108,36 @@ _print_harness("chempy.printing.tex", "LatexPrinter", "latex", {"Reaction": r"\r
 
 @harness("C12", "print_names_and_system", functions=[ST + ":StrPrinter._print_Reaction", ST + ":StrPrinter._print_ReactionSystem"], kind="data")
 def _(v):
+    """the '; parameter' part follows the stoichiometry, the name (if printed at all) follows the parameter; a system is one reaction per line in
+    the stored order. Literal texts are demanded only where the documented notation fixes them (no names); HOW a name is written after the
+    parameter is left open here, because the present form '; first' is the text the pinned obligations print_parse_round_trip.with_names.named_*
+    (F-C12b) call wrong: the parser's notation for it is  ; name='first'  - a repair must not turn these obligations red"""
     from chempy.chemistry import Reaction
     from chempy.reactionsystem import ReactionSystem
     from chempy.printing.string import StrPrinter
-    r1 = Reaction({"A": 2}, {"B": 1}, 3.5, name="first", checks=())
-    r2 = Reaction({"B": 1}, {"C": 1}, None, checks=())
-    p = StrPrinter()
-    v.prove("param_and_name", p.doprint(r1) == "2 A -> B; 3.5; first")
-    v.prove("no_param_no_name", p.doprint(r2) == "B -> C")
-    rs = ReactionSystem([r1, r2], "A B C", name="sys", checks=())
-    v.prove("system_lines_in_order", p.doprint(rs) == "sys\n2 A -> B; 3.5; first\nB -> C\n")
+    try:
+        r1 = Reaction({"A": 2}, {"B": 1}, 3.5, name="first", checks=())
+        r1n = Reaction({"A": 2}, {"B": 1}, 3.5, checks=())
+        r2 = Reaction({"B": 1}, {"C": 1}, None, checks=())
+        p = StrPrinter()
+        t1, t1_noname = p.doprint(r1), StrPrinter(dict(with_name=False)).doprint(r1)
+        # hand-written: stoichiometry '2 A -> B', then '; ' + parameter; the name part, whatever its notation, is a further '; ' part mentioning the name
+        ok1 = t1_noname == "2 A -> B; 3.5" and p.doprint(r1n) == "2 A -> B; 3.5" and t1.startswith("2 A -> B; 3.5; ") and "first" in t1[len("2 A -> B; 3.5; "):] and "\n" not in t1
+        ok_np, det1 = p.doprint(r2) == "B -> C", repr((t1, t1_noname))
+        plain = p.doprint(ReactionSystem([r1n, r2], "A B C", checks=()))
+        txt = p.doprint(ReactionSystem([r1, r2], "A B C", name="sys", checks=()))
+        rxn_lines = [ln for ln in txt.split("\n") if " -> " in ln]
+        other = [ln for ln in txt.split("\n") if ln.strip() and " -> " not in ln]
+        ok2 = (plain == "2 A -> B; 3.5\nB -> C\n"                                      # no names anywhere: the text is fixed by the notation
+               and rxn_lines == [t1, "B -> C"] and txt.endswith("\n")                   # each line is the text of its reaction, in the stored order
+               and all("sys" in ln for ln in other))                                    # nothing else but (possibly) the name of the system
+        det2 = repr((plain, txt))
+    except Exception as ex:   # of the code under test: a failed obligation, not a checker error
+        ok1 = ok_np = ok2 = False
+        det1 = det2 = repr(ex)[:200]
+    v.prove("param_and_name", ok1, detail=det1)
+    v.prove("no_param_no_name", ok_np, detail=det1)
+    v.prove("system_lines_in_order", ok2, detail=det2)
 
 
 def _pm(layout):
@@ -135,14 +173,14 @@ for _l in ("space", "star", "repeated"):
 @harness("C12", "_parse_multiplicity.concrete_forms", functions=[PA + ":_parse_multiplicity"], kind="data")
 def _(v):
     from chempy.util.parsing import _parse_multiplicity as pm
-    v.prove("decimal_coefficient_is_float", pm(["2.5 A", "1e1 B"]) == {"A": 2.5, "B": 10.0} and isinstance(pm(["2.5 A"])["A"], float))
-    v.prove("integer_coefficient_is_int", pm(["3 A"]) == {"A": 3} and isinstance(pm(["3 A"])["A"], int))
-    v.prove("empty_strings_skipped", pm(["", "A"]) == {"A": 1})
-    try:
-        pm(["2 A B"]); ok = False
-    except ValueError:
-        ok = True
-    v.prove("three_tokens_rejected", ok)
+    got = _try(lambda: (pm(["2.5 A", "1e1 B"]), type(pm(["2.5 A"])["A"])))
+    v.prove("decimal_coefficient_is_float", got == ({"A": 2.5, "B": 10.0}, float), detail=repr(got))
+    got = _try(lambda: (pm(["3 A"]), type(pm(["3 A"])["A"])))
+    v.prove("integer_coefficient_is_int", got == ({"A": 3}, int), detail=repr(got))
+    got = _try(lambda: pm(["", "A"]))
+    v.prove("empty_strings_skipped", got == {"A": 1}, detail=repr(got))
+    got = _try(lambda: pm(["2 A B"]))
+    v.prove("three_tokens_rejected", isinstance(got, _Raised) and isinstance(got.ex, ValueError), detail=repr(got))
 
 
 @harness("C12", "_is_inactive_group.exhaustive", functions=[PA + ":_is_inactive_group"], kind="data")
@@ -201,24 +239,34 @@ def _(v):
     v.prove("missing_arrow_token_rejected", out.raised(ValueError))
     seen.clear()
     v.call(cls.from_string, "A %s B" % arrow, "A B", False, checks=())
-    v.prove("string_of_keys_is_split", all(sk == ["A", "B"] for _, sk in seen) and len(seen) == 4)
+    # the allowed keys reach the membership test as a collection of the two keys - never as the string itself (substring test, F-C12c); the
+    # container type (list / tuple / set) and the number of helper calls are not part of the property (the four PM: obligations pin the placement)
+    is_coll = lambda sk, want: not isinstance(sk, (str, bytes)) and sk is not None and set(sk) == want
+    v.prove("string_of_keys_is_split", bool(seen) and all(is_coll(sk, {"A", "B"}) for _, sk in seen), detail=repr(seen))
     seen.clear()
     v.call(cls.from_string, "A %s A" % arrow, "A", False, checks=())
-    v.prove("string_with_a_single_key_is_a_list_of_one_key", all(sk == ["A"] for _, sk in seen) and len(seen) == 4, detail=repr(seen))
+    v.prove("string_with_a_single_key_is_a_list_of_one_key", bool(seen) and all(is_coll(sk, {"A"}) for _, sk in seen), detail=repr(seen))
 
 
 @harness("C12", "to_reaction.parameters", functions=[PA + ":to_reaction"], kind="data")
 def _(v):
+    """'then ; parameter and ; keyword=value parts': a quoted parameter is a named (symbolic) mass-action constant, a number is that number, the
+    keyword parts reach the object, no parameter part means no parameter"""
     from chempy.chemistry import Reaction
     from chempy.kinetics.rates import MassAction
-    r = Reaction.from_string("A -> B; 'k1'", checks=())
-    v.prove("quoted_name_is_symbolic_mass_action", isinstance(r.param, MassAction) and r.param.args[0].unique_keys == ("k1",))
-    r = Reaction.from_string("A -> B; 2.5e3; name='x', ref='y'", checks=())
-    v.prove("numeric_param_and_keywords", r.param == 2500.0 and r.name == "x" and r.ref == "y")
-    r = Reaction.from_string("A -> B", checks=())
-    v.prove("no_param", r.param is None)
-    r = Reaction.from_string("A -> B; 3*4", globals_=False, checks=())
-    v.prove("globals_false_never_evals", r.param is None)
+    # docstring of Reaction.from_string: "A -> 2 B; 'k'" has the rate k*[A] with k looked up by its name among the variables - stated through the
+    # rates for two values of the constant, not through the attributes of the expression object
+    def sym():
+        r = Reaction.from_string("A -> B; 'k1'", checks=())
+        return isinstance(r.param, MassAction), [r.rate({"A": 3, "B": 5, "k1": k}) for k in (7, 11)]
+    got = _try(sym)
+    v.prove("quoted_name_is_symbolic_mass_action", got == (True, [{"A": -3 * 7, "B": 3 * 7}, {"A": -3 * 11, "B": 3 * 11}]), detail=repr(got))
+    got = _try(lambda: (lambda r: (r.param, r.name, r.ref))(Reaction.from_string("A -> B; 2.5e3; name='x', ref='y'", checks=())))
+    v.prove("numeric_param_and_keywords", got == (2500.0, "x", "y"), detail=repr(got))
+    got = _try(lambda: Reaction.from_string("A -> B", checks=()).param)
+    v.prove("no_param", got is None, detail=repr(got))
+    got = _try(lambda: Reaction.from_string("A -> B; 3*4", globals_=False, checks=()).param)
+    v.prove("globals_false_never_evals", got is None, detail=repr(got))
 
 
 @harness("C12", "copy_and_eq", functions=["chempy.chemistry:Reaction.copy", "chempy.chemistry:Reaction.__eq__", "chempy.chemistry:Reaction._init_stoich"], kind="shape-bounded", samples=20)
@@ -251,90 +299,189 @@ def _(v):
 
 @harness("C12", "print_structure.half_round_trip", functions=[ST + ":StrPrinter._Reaction_parts", PA + ":_parse_multiplicity"], kind="data")
 def _(v):
+    """print -> parse for decimal coefficients: the species and coefficients that were put in come back (hand-written maps), as a Reaction"""
     from chempy.chemistry import Reaction
     ok = []
     for c in (0.5, 0.25, 1.5, 2.5, 0.1):
-        r = Reaction({"H2O2": 1}, {"O2": c, "H2O": 1}, checks=())
-        back = Reaction.from_string(str(r), checks=())
-        ok.append(back.prod == r.prod and back.reac == r.reac)
-    v.prove("decimal_coefficients_round_trip", all(ok), str(ok))
+        try:
+            r = Reaction({"H2O2": 1}, {"O2": c, "H2O": 1}, checks=())
+            back = Reaction.from_string(str(r), checks=())
+            ok.append((dict(back.reac), dict(back.prod), type(back)) == ({"H2O2": 1}, {"O2": c, "H2O": 1}, Reaction) and bool(back == r))
+        except Exception as ex:
+            ok.append(repr(ex)[:80])
+    v.prove("decimal_coefficients_round_trip", all(o is True for o in ok), str(ok))
 
 
 @harness("C12", "print_parse_round_trip.with_names", functions=["chempy.printing.string:StrPrinter._print_Reaction", "chempy.printing.string:StrPrinter._print_ReactionSystem",
                                                                 "chempy.chemistry:Reaction.from_string", "chempy.reactionsystem:ReactionSystem.from_string"], kind="data")
 def _(v):
     """'printing a reaction, equilibrium or system ... and parsing the text back yields an equal object' for objects that carry a NAME (the
-    documented notation for it is  ; name='...' )"""
-    from chempy.chemistry import Reaction, Equilibrium
+    documented notation for it is  ; name='...' ), and for whole systems. 'Equal' is taken with everything == does not look at: the class of
+    what comes back (Reaction == Equilibrium and ReactionSystem == EqSystem are True for equal content), the name of the object and - for a
+    system - the classes and names of its member reactions (Reaction.__eq__ ignores the name)"""
+    from chempy.chemistry import Reaction, Equilibrium, Substance
     from chempy.reactionsystem import ReactionSystem
 
-    def back(cls, obj, **kw):
+    def back(cls, obj, *args, **kw):
         try:
-            r = cls.from_string(str(obj) if not isinstance(obj, ReactionSystem) else obj.string(), **kw)
-            return r == obj and getattr(r, "name", None) == getattr(obj, "name", None), ""
+            r = cls.from_string(str(obj) if not isinstance(obj, ReactionSystem) else obj.string(), *args, **kw)
+            same = [r == obj, type(r) is type(obj), getattr(r, "name", None) == getattr(obj, "name", None)]
+            if isinstance(obj, ReactionSystem):
+                same += [[type(x) for x in r.rxns] == [type(x) for x in obj.rxns], [x.name for x in r.rxns] == [x.name for x in obj.rxns]]
+            return all(same), "%s: equal/class/name[/member classes/member names] = %r" % (str(obj)[:60], same)
         except Exception as ex:
             return False, "%s: %r" % (str(obj)[:60], ex)
-    r = Reaction.from_string("A -> B; 2.5; name='x'")
-    ok, det = back(Reaction, r)
-    v.prove("named_reaction_with_parameter", ok, detail=det)
-    ok, det = back(Reaction, Reaction({"A": 2}, {"B": 1}, name="first"))
-    v.prove("named_reaction_without_parameter", ok, detail=det)
-    ok, det = back(Equilibrium, Equilibrium({"A": 1}, {"B": 1}, 3.0, name="eq1"))
-    v.prove("named_equilibrium", ok, detail=det)
-    rs = ReactionSystem.from_string("H2O -> H+ + OH-; 2\nH+ + OH- -> H2O; 3", name="mysys")
-    ok, det = back(ReactionSystem, rs)
-    v.prove("named_system", ok, detail=det)
-    plain = ReactionSystem.from_string("H2O -> H+ + OH-; 2\nH+ + OH- -> H2O; 3")
-    ok, det = back(ReactionSystem, plain)
-    v.prove("unnamed_system", ok, detail=det)
+
+    def build(f):   # construction of the object to be printed is not what is under test here, but it is chempy code: a failure fails the obligation
+        try:
+            return f(), ""
+        except Exception as ex:
+            return None, "construction: %r" % (ex,)
+
+    def rt(name, cls, make, *args, **kw):
+        obj, det = build(make)
+        ok = False
+        if obj is not None:
+            ok, det = back(cls, obj, *args, **kw)
+        v.prove(name, ok, detail=det)
+    rt("named_reaction_with_parameter", Reaction, lambda: Reaction.from_string("A -> B; 2.5; name='x'"))
+    # without a parameter the bare name stands in the parameter slot: a name that happens to evaluate ('1', the unit 'second') is then not refused but
+    # read as the parameter, silently giving a different object - all three names must come back (F-C12b)
+    oks = []
+    for nm in ("first", "1", "second"):
+        obj, det = build(lambda: Reaction({"A": 2}, {"B": 1}, name=nm))
+        oks.append(back(Reaction, obj) if obj is not None else (False, det))
+    v.prove("named_reaction_without_parameter", all(ok for ok, _ in oks), detail="; ".join(d for ok, d in oks if not ok)[:300])
+    rt("named_equilibrium", Equilibrium, lambda: Equilibrium({"A": 1}, {"B": 1}, 3.0, name="eq1"))
+    # a named system whose reactions carry names too (documented notation of the parser); what the names of the MEMBERS become is compared as well
+    rt("named_system", ReactionSystem, lambda: ReactionSystem.from_string("H2O -> H+ + OH-; 2; name='first'\nH+ + OH- -> H2O; 3; name='second'", name="mysys"))
+    rt("unnamed_system", ReactionSystem, lambda: ReactionSystem.from_string("H2O -> H+ + OH-; 2\nH+ + OH- -> H2O; 3"))
+    # usage of the class docstring: the species are GIVEN (key string, in the user's order, possibly with a spectator that no reaction mentions).
+    # Neither that order nor a spectator is in the text, so the whole object comes back only when the keys are handed to the parser again ...
+    docs = lambda: ReactionSystem.from_string("H2O -> H+ + OH-; 2\nH+ + OH- -> H2O; 3", "H2O H+ OH-")
+    spect = lambda: ReactionSystem.from_string("A -> B; 2", "A B C", substance_factory=Substance)
+    oks = []
+    for make, args, kw in ((docs, (["H2O", "H+", "OH-"],), {}), (docs, ("H2O H+ OH-",), {}), (spect, ("A B C",), dict(substance_factory=Substance)), (spect, (["A", "B", "C"],), dict(substance_factory=Substance))):
+        obj, det = build(make)
+        oks.append(back(ReactionSystem, obj, *args, **kw) if obj is not None else (False, det))
+    v.prove("system_given_with_keys_reads_back_against_its_keys", all(ok for ok, _ in oks), detail="; ".join(d for ok, d in oks if not ok)[:300])
+    # ... and from the text alone: the same reactions (class, order, parameters, names) over exactly the species that are written
+    oks = []
+    for make, kw, written in ((docs, {}, {"H2O", "H+", "OH-"}), (spect, dict(substance_factory=Substance), {"A", "B"})):
+        try:
+            obj = make()
+            r = ReactionSystem.from_string(obj.string(), **kw)
+            same = [type(r) is type(obj), r.rxns == obj.rxns, [type(x) for x in r.rxns] == [type(x) for x in obj.rxns], [x.name for x in r.rxns] == [x.name for x in obj.rxns],
+                    set(r.substances) == written and len(r.substances) == len(written)]
+            oks.append((all(same), "%r: %r" % (obj.string(), same)))
+        except Exception as ex:
+            oks.append((False, repr(ex)[:160]))
+    v.prove("system_text_alone_gives_the_same_reactions_over_the_written_species", all(ok for ok, _ in oks), detail="; ".join(d for ok, d in oks if not ok)[:300])
 
 
-@harness("C12", "unknown_keys_are_refused", functions=["chempy.chemistry:Reaction.from_string", PA + ":_parse_multiplicity"], kind="data")
+@harness("C12", "unknown_keys_are_refused", functions=["chempy.chemistry:Reaction.from_string", PA + ":_parse_multiplicity", "chempy.reactionsystem:ReactionSystem.from_string"], kind="data")
 def _(v):
     """'an unknown key is rejected when an allowed-key list is given', whatever the form the allowed keys take (list, tuple, blank- or tab-separated
-    string, a string holding a single key) and wherever the unknown key stands"""
-    from chempy.chemistry import Reaction, Equilibrium
+    string, a string holding a single key, set, frozenset, dict, dict view, numpy array of str, and the OrderedDict of Substance objects a system
+    forwards) and wherever the unknown key stands (either side, inactive group, 'n *' term); the same forms accept a line made of known keys"""
+    from collections import OrderedDict
+    import numpy as np
+    from chempy.chemistry import Reaction, Equilibrium, Substance
+    from chempy.reactionsystem import ReactionSystem
     accepted = []
-    for text, keys in (("H2O2 -> H2O + O", "H2O2"), ("H2O2 -> H2O + O", ["H2O2"]), ("H2O2 -> H2O + O", ("H2O2", "H2O")), ("H -> O", "H2O\tO2"), ("H2O -> H + OH", "H2O OH"),
-                       ("A + B -> C + (D)", "A B C"), ("A + (2 X) -> C", ["A", "C"]), ("2 * Q -> A", "A")):
+    cases = [("H2O2 -> H2O + O", "H2O2"), ("H2O2 -> H2O + O", ["H2O2"]), ("H2O2 -> H2O + O", ("H2O2", "H2O")), ("H -> O", "H2O\tO2"), ("H2O -> H + OH", "H2O OH"),
+             ("A + B -> C + (D)", "A B C"), ("A + (2 X) -> C", ["A", "C"]), ("2 * Q -> A", "A")]
+    forms = lambda ks: [set(ks), frozenset(ks), dict.fromkeys(ks), OrderedDict((k, None) for k in ks).keys(), np.array(ks)]
+    for keys in forms(["H2O2"]):
+        cases += [("H2O2 -> H2O + O", keys), ("H2O2 -> H2O2 + (O)", keys), ("H2O2 + (2 H2O) -> H2O2", keys)]
+    for keys in forms(["A", "C"]):
+        cases += [("A -> C + X", keys), ("A + (2 X) -> C", keys), ("A -> C + (X)", keys), ("2 * Q -> A", keys)]
+    for text, keys in cases:
         for cls, arrow in ((Reaction, "->"), (Equilibrium, "=")):
             try:
                 accepted.append((str(cls.from_string(text.replace("->", arrow), keys, checks=())), keys))
             except ValueError:
                 pass
-    v.prove("every_form_of_the_allowed_keys", not accepted, detail=repr(accepted))
-    ok = str(Reaction.from_string("H2O2 -> H2O + O", "H2O2 H2O O")) == "H2O2 -> H2O + O" and str(Reaction.from_string("H2O2 -> H2O + O", ["O", "H2O", "H2O2"])) == "H2O2 -> H2O + O"
-    v.prove("known_keys_are_accepted", ok)
+            except Exception as ex:   # any other exception is a crash on a legal form of the allowed keys, not a refusal of the key
+                accepted.append((text, keys, repr(ex)[:80]))
+    # the mapping of Substance objects (what ReactionSystem.from_string hands to every line) and a set, at system level
+    subst = OrderedDict([("A", Substance("A")), ("C", Substance("C"))])
+    for text in ("A -> C + X", "A -> C\nA + (2 X) -> C", "A -> C\nC -> A + (X)"):
+        for keys in (subst, {"A", "C"}, ["A", "C"], "A C"):
+            try:
+                accepted.append(([str(r) for r in ReactionSystem.from_string(text, keys, substance_factory=Substance, checks=()).rxns], keys))
+            except ValueError:
+                pass
+            except Exception as ex:
+                accepted.append((text, keys, repr(ex)[:80]))
+    v.prove("every_form_of_the_allowed_keys", not accepted, detail=repr(accepted[:4]))
+    # ... and none of the forms refuses (or crashes on) known keys: hand-written reading of 'H2O2 -> H2O + O' and of a line with an inactive group
+    wrong = []
+    for keys in ["H2O2 H2O O", "O\tH2O\nH2O2", ["O", "H2O", "H2O2"], ("H2O", "O", "H2O2")] + forms(["O", "H2O", "H2O2"]) + [OrderedDict((k, Substance(k)) for k in ("H2O2", "H2O", "O"))]:
+        for text, want in (("H2O2 -> H2O + O", ({"H2O2": 1}, {"H2O": 1, "O": 1}, {}, {})), ("2 H2O2 + (O) -> 2 * H2O + (2 O)", ({"H2O2": 2}, {"H2O": 2}, {"O": 1}, {"O": 2}))):
+            got = _try(lambda: (lambda r: (dict(r.reac), dict(r.prod), dict(r.inact_reac), dict(r.inact_prod)))(Reaction.from_string(text, keys, checks=())))
+            if got != want:
+                wrong.append((text, keys, got))
+    v.prove("known_keys_are_accepted", not wrong, detail=repr(wrong[:3]))
 
 
 @harness("C12", "system_from_text", functions=["chempy.reactionsystem:ReactionSystem.from_string", "chempy.equilibria:EqSystem.from_string"], kind="data")
 def _(v):
     """'multi-line systems with comments': one reaction per non-blank, non-comment line, in order, exactly as written (hand-written expectations);
-    a `substances` argument is the allowed-key list for every line; trailing comments and keyword parts are not species"""
-    from chempy.chemistry import Substance
+    a `substances` argument is the allowed-key list for every line; comment LINES (the documented form: a line prefixed by a comment token) and
+    keyword parts are not species; the reactions are of the class of the system; the documented arguments comment_tokens, rxn_parse_kwargs and
+    missing_substances_from_keys do what their documentation says"""
+    from chempy.chemistry import Substance, Reaction, Equilibrium
     from chempy.reactionsystem import ReactionSystem
     from chempy.equilibria import EqSystem
-    text = "\n".join(["# a comment line", "", "2 HNO2 -> H2O + NO + NO2; 3  # trailing comment", "   ", "   # indented comment", "2 NO2 -> N2O4; 4; name='dimerisation'",
+    RS = lambda t, *a, **k: ReactionSystem.from_string(t, *a, substance_factory=Substance, **k)
+    summary = lambda rs: [(dict(r.reac), dict(r.prod), dict(r.inact_reac), dict(r.inact_prod), r.param, r.name) for r in rs.rxns]
+    text = "\n".join(["# a comment line", "", "2 HNO2 -> H2O + NO + NO2; 3", "   ", "   # indented comment", "2 NO2 -> N2O4; 4; name='dimerisation'", "#NO2 -> NO; 7",
                       "NO + (2 H2O) -> NO2 + (H2O); 5e-3", "3 * NO2 + [Fe(CN)6]-3 -> (NH4)2SO4 + 2 NO2; 1.5"])
-    rs = ReactionSystem.from_string(text, substance_factory=Substance, checks=())
-    got = [(dict(r.reac), dict(r.prod), dict(r.inact_reac), dict(r.inact_prod), r.param, r.name) for r in rs.rxns]
+    rs = _try(lambda: RS(text, checks=()))
+    got = _try(lambda: summary(rs))
     want = [({"HNO2": 2}, {"H2O": 1, "NO": 1, "NO2": 1}, {}, {}, 3, None), ({"NO2": 2}, {"N2O4": 1}, {}, {}, 4, "dimerisation"),
             ({"NO": 1}, {"NO2": 1}, {"H2O": 2}, {"H2O": 1}, 5e-3, None), ({"NO2": 3, "[Fe(CN)6]-3": 1}, {"(NH4)2SO4": 1, "NO2": 2}, {}, {}, 1.5, None)]
     v.prove("one_reaction_per_line_in_order_as_written", got == want, detail=repr(got))
-    v.prove("substances_are_the_species_mentioned", set(rs.substances) == {"HNO2", "H2O", "NO", "NO2", "N2O4", "[Fe(CN)6]-3", "(NH4)2SO4"} and len(rs.substances) == 7, detail=repr(list(rs.substances)))
+    subs = _try(lambda: list(rs.substances))
+    v.prove("substances_are_the_species_mentioned", not isinstance(subs, _Raised) and set(subs) == {"HNO2", "H2O", "NO", "NO2", "N2O4", "[Fe(CN)6]-3", "(NH4)2SO4"} and len(subs) == 7, detail=repr(subs))
+    # a comment at the END of a reaction line is not the documented notation (comment_tokens: "lines ... ignored when prefixed"); today '#' there is
+    # skipped by eval() of the parameter text. Either reading is fine - refused, or the line as written without the comment - but never another reaction
+    got = [_try(lambda: summary(RS(t))) for t in ("2 HNO2 -> H2O + NO + NO2; 3  # trailing comment", "A -> B  # c")]
+    ok = [isinstance(g, _Raised) or g == w for g, w in zip(got, ([want[0]], [({"A": 1}, {"B": 1}, {}, {}, None, None)]))]
+    v.prove("trailing_comment_is_dropped_or_refused_never_misread", all(ok), detail=repr(got))
     keys = "HNO2 H2O NO NO2 N2O4"
-    ok = ReactionSystem.from_string("2 HNO2 -> H2O + NO + NO2; 3\n2 NO2 -> N2O4; 4", keys, substance_factory=Substance)
-    v.prove("allowed_keys_accepted", [str(r) for r in ok.rxns] == ["2 HNO2 -> H2O + NO + NO2; 3", "2 NO2 -> N2O4; 4"] and list(ok.substances) == keys.split())
+    got = _try(lambda: (lambda ok: (summary(ok), list(ok.substances)))(RS("2 HNO2 -> H2O + NO + NO2; 3\n2 NO2 -> N2O4; 4", keys)))
+    v.prove("allowed_keys_accepted", got == ([want[0], ({"NO2": 2}, {"N2O4": 1}, {}, {}, 4, None)], keys.split()), detail=repr(got))
     refused = []
     for bad_text in ("2 HNO2 -> H2O + NO + NO2; 3\n2 NO2 -> N2O5; 4", "2 HNO3 -> H2O + NO + NO2; 3\n2 NO2 -> N2O4; 4", "2 HNO2 -> H2O + NO + NO2; 3\n2 NO2 -> (Xe) + N2O4; 4"):
         try:
-            ReactionSystem.from_string(bad_text, keys, substance_factory=Substance, checks=())
+            RS(bad_text, keys, checks=())
             refused.append(False)
         except ValueError:
             refused.append(True)
-    v.prove("unknown_key_on_any_line_is_refused", all(refused), detail=repr(refused))
-    es = EqSystem.from_string("H2O = H+ + OH-; 1e-14\nNH4+ = NH3 + H+; 5.6e-10")
-    v.prove("equilibria_use_the_equals_arrow", [(dict(r.reac), dict(r.prod), r.param) for r in es.rxns] == [({"H2O": 1}, {"H+": 1, "OH-": 1}, 1e-14), ({"NH4+": 1}, {"H+": 1, "NH3": 1}, 5.6e-10)])
+        except Exception as ex:
+            refused.append(repr(ex)[:80])
+    v.prove("unknown_key_on_any_line_is_refused", all(r is True for r in refused), detail=repr(refused))
+    # == cannot tell a Reaction from an Equilibrium (nor the two kinds of system): the classes are compared explicitly
+    got = _try(lambda: (lambda es: ([(dict(r.reac), dict(r.prod), r.param) for r in es.rxns], [type(r) for r in es.rxns], type(es)))(EqSystem.from_string("H2O = H+ + OH-; 1e-14\nNH4+ = NH3 + H+; 5.6e-10")))
+    v.prove("equilibria_use_the_equals_arrow", got == ([({"H2O": 1}, {"H+": 1, "OH-": 1}, 1e-14), ({"NH4+": 1}, {"H+": 1, "NH3": 1}, 5.6e-10)], [Equilibrium, Equilibrium], EqSystem), detail=repr(got))
+    got = (_try(lambda: [type(r) for r in rs.rxns]), type(rs))
+    v.prove("reactions_are_of_the_class_of_the_system", got == ([Reaction] * 4, ReactionSystem), detail=repr(got))
+    got = [_try(lambda: summary(ReactionSystem.from_string("A -> B\nB = C", substance_factory=Substance))), _try(lambda: summary(EqSystem.from_string("A = B\nB -> C", substance_factory=Substance))),
+           _try(lambda: summary(ReactionSystem.from_string("A = B", substance_factory=Substance))), _try(lambda: summary(EqSystem.from_string("A -> B", substance_factory=Substance)))]
+    v.prove("line_with_the_arrow_of_the_other_class_is_refused", all(isinstance(g, _Raised) and isinstance(g.ex, ValueError) for g in got), detail=repr(got))
+    # comment_tokens: "Tokens which causes lines to be ignored when prefixed by any of them" - the given tokens, not a built-in '#'
+    got = [_try(lambda: summary(RS("// x\nA -> B\n  -- B -> C; 4", comment_tokens=("//", "--")))), _try(lambda: summary(RS("# x\nA -> B", comment_tokens=("//",))))]
+    v.prove("comment_tokens_are_the_given_ones", got[0] == [({"A": 1}, {"B": 1}, {}, {}, None, None)] and isinstance(got[1], _Raised), detail=repr(got))
+    # rxn_parse_kwargs: "passed on to the Reaction baseclass' method from_string": globals_ is what the parameter text is evaluated in (k = 7 -> 2*k = 14),
+    # and globals_=False means no evaluation at all
+    got = [_try(lambda: [r.param for r in RS("A -> B; 2*k\nB -> C; k + 1", rxn_parse_kwargs=dict(globals_={"k": 7})).rxns]), _try(lambda: [r.param for r in RS("A -> B; 3*4", rxn_parse_kwargs=dict(globals_=False)).rxns]),
+           _try(lambda: [r.param for r in RS("A -> B; 3*4").rxns])]
+    v.prove("rxn_parse_kwargs_reach_every_line", got == [[14, 8], [None], [12]], detail=repr(got))
+    # missing_substances_from_keys: the given substances are then not the allowed-key list; the species of the text are added to them
+    got = [_try(lambda: (lambda r: (summary(r), set(r.substances)))(RS("A -> B + (C)", "A", missing_substances_from_keys=True))), _try(lambda: summary(RS("A -> B + (C)", "A")))]
+    v.prove("missing_substances_from_keys_lifts_the_key_check", got[0] == ([({"A": 1}, {"B": 1}, {}, {"C": 1}, None, None)], {"A", "B", "C"}) and isinstance(got[1], _Raised) and isinstance(got[1].ex, ValueError), detail=repr(got))
 
 
 @harness("C12", "system_text_uses_the_species_keys", functions=["chempy.reactionsystem:ReactionSystem.string", "chempy.printing.string:StrPrinter._print_ReactionSystem"], kind="data")
@@ -345,18 +492,16 @@ def _(v):
     from chempy.chemistry import Reaction, Substance
     from chempy.reactionsystem import ReactionSystem
     subs = OrderedDict([("H2O2", Substance("hydrogen peroxide")), ("H2O", Substance("water")), ("O2", Substance("oxygen"))])
-    rs = ReactionSystem([Reaction({"H2O2": 2}, {"H2O": 2, "O2": 1}, 3.0)], subs, checks=())
-    txt = rs.string()
-    v.prove("keys_not_display_names", txt.strip() == "2 H2O2 -> 2 H2O + O2; 3", detail=repr(txt))
+    txt = _try(lambda: ReactionSystem([Reaction({"H2O2": 2}, {"H2O": 2, "O2": 1}, 3.0)], subs, checks=()).string())
+    v.prove("keys_not_display_names", not isinstance(txt, _Raised) and txt.strip() == "2 H2O2 -> 2 H2O + O2; 3", detail=repr(txt))
     try:
         back = ReactionSystem.from_string(txt, list(subs), substance_factory=Substance)
         ok = [(dict(r.reac), dict(r.prod)) for r in back.rxns] == [({"H2O2": 2}, {"H2O": 2, "O2": 1})]
     except Exception as ex:
         ok = repr(ex)
     v.prove("reads_back_against_the_key_list", ok is True, detail=repr(ok))
-    half = Reaction({"H2O2": 1}, {"H2O": 1, "O2": 0.5}, checks=())
-    v.prove("coefficient_below_one_is_printed", str(half) == "H2O2 -> H2O + 0.5 O2" and half.unicode({}) == "H2O2 → H2O + 0.5 O2" and "0.5 O" in half.latex({}) and "0.5 O" in half.html({}),
-            detail=repr((str(half), half.unicode({}), half.latex({}), half.html({}))))
+    got = _try(lambda: (lambda half: (str(half), half.unicode({}), half.latex({}), half.html({})))(Reaction({"H2O2": 1}, {"H2O": 1, "O2": 0.5}, checks=())))
+    v.prove("coefficient_below_one_is_printed", not isinstance(got, _Raised) and got[0] == "H2O2 -> H2O + 0.5 O2" and got[1] == "H2O2 → H2O + 0.5 O2" and "0.5 O" in got[2] and "0.5 O" in got[3], detail=repr(got))
 
 
 @harness("C12", "keys_containing_the_arrow", functions=["chempy.util.parsing:to_reaction", "chempy.chemistry:Reaction.from_string", "chempy.chemistry:Equilibrium.from_string"], kind="data")
@@ -368,20 +513,25 @@ def _(v):
     bad = []
     for cls, text, reac, prod in ((Equilibrium, "CH2=CH2 + H2 = C2H6; 3", {"CH2=CH2": 1, "H2": 1}, {"C2H6": 1}), (Equilibrium, "2 CH2=CH2 = C4H8", {"CH2=CH2": 2}, {"C4H8": 1}),
                                   (Equilibrium, "C2H6 = H2 + CH2=CH2", {"C2H6": 1}, {"H2": 1, "CH2=CH2": 1}), (Reaction, "a->b + 2 c -> d", {"a->b": 1, "c": 2}, {"d": 1}),
-                                  (Reaction, "A- -> B-", {"A-": 1}, {"B-": 1}), (Reaction, "A->B", {"A": 1}, {"B": 1}), (Equilibrium, "A=B", {"A": 1}, {"B": 1})):
+                                  (Reaction, "A- -> B-", {"A-": 1}, {"B-": 1}), (Reaction, "A->B -> C", {"A->B": 1}, {"C": 1}), (Equilibrium, "A = B=C", {"A": 1}, {"B=C": 1}),
+                                  (Reaction, "A->B", {"A": 1}, {"B": 1}), (Equilibrium, "A=B", {"A": 1}, {"B": 1})):
+        # the last two write the arrow WITHOUT blanks: not the documented notation (and what makes 'A->B -> C' ambiguous). A parser may read them
+        # (then as A -> B) or insist on the blank-delimited arrow and refuse them with ValueError - but never hand back anything else
+        may_refuse = " " not in text
         try:
             r = cls.from_string(text)
-            if dict(r.reac) != reac or dict(r.prod) != prod:
+            if dict(r.reac) != reac or dict(r.prod) != prod or type(r) is not cls:
                 bad.append((text, dict(r.reac), dict(r.prod)))
         except Exception as ex:
-            bad.append((text, repr(ex)[:80]))
+            if not (may_refuse and isinstance(ex, ValueError)):
+                bad.append((text, repr(ex)[:80]))
     v.prove("every_written_species_on_its_written_side", not bad, detail=repr(bad[:3]))
     # ... and such a key survives print -> parse, also next to an empty side (the printed text then ends with the arrow)
     lost = []
     for obj in (Equilibrium({"CH2=CH2": 1, "H2": 1}, {"CH3CH3": 1}, 5.0), Equilibrium({"CH2=CH2": 1}, {}, checks=()), Reaction({"a->b": 1}, {}, 2.0), Reaction({}, {"a->b": 2}, 2.0)):
         try:
             back = type(obj).from_string(str(obj), checks=())
-            if not (back == obj and dict(back.reac) == dict(obj.reac) and dict(back.prod) == dict(obj.prod)):
+            if not (back == obj and type(back) is type(obj) and dict(back.reac) == dict(obj.reac) and dict(back.prod) == dict(obj.prod)):
                 lost.append((str(obj), dict(back.reac), dict(back.prod)))
         except Exception as ex:
             lost.append((str(obj), repr(ex)[:80]))
@@ -410,18 +560,31 @@ def _(v):
         r = Reaction.from_string("2 *CO + * -> 2 * *COH + 3 *; 3")
         ok = dict(r.reac) == {"*CO": 2, "*": 1} and dict(r.prod) == {"*COH": 2, "*": 3}
         back = Reaction.from_string(str(r))
-        ok2, det = back == r, "%r %r %r" % (dict(r.reac), dict(r.prod), str(r))
+        ok2, det = back == r and type(back) is Reaction and dict(back.reac) == dict(r.reac) and dict(back.prod) == dict(r.prod) and back.param == 3, "%r %r %r" % (dict(r.reac), dict(r.prod), str(r))
     except Exception as ex:
         ok, ok2, det = False, False, repr(ex)[:200]
     v.prove("star_keys_with_explicit_coefficients", ok, detail=det)
     v.prove("star_keys_print_parse", ok2, detail=det)
-    rs = ReactionSystem.from_string("A -> B; 3; name='first'\nB -> C; 4; name='second'", substance_factory=Substance)
-    texts = {k: rs.string(**kw) for k, kw in (("default", {}), ("no_name", dict(with_name=False)), ("no_param", dict(with_param=False)), ("neither", dict(with_param=False, with_name=False)))}
-    want = {"default": "A -> B; 3; first\nB -> C; 4; second\n", "no_name": "A -> B; 3\nB -> C; 4\n", "no_param": "A -> B; first\nB -> C; second\n", "neither": "A -> B\nB -> C\n"}
-    v.prove("system_text_switches_are_independent", texts == want, detail=repr({k: t for k, t in texts.items() if t != want[k]}))
+    # (b) the names are 'first'/'second', the parameters 3/4. Literal texts are demanded where no name is printed (fixed by the documented notation);
+    # HOW a name is written is left open (F-C12b: today '; first', which the parser cannot read back, see print_parse_round_trip.with_names.named_*):
+    # a line with its name begins with the text of the same line without it and mentions the name; no parameter where the parameters are switched off
     try:
-        back = ReactionSystem.from_string(texts["no_name"], substance_factory=Substance)
-        ok3 = [(dict(r.reac), dict(r.prod), r.param) for r in back.rxns] == [({"A": 1}, {"B": 1}, 3), ({"B": 1}, {"C": 1}, 4)]
+        rs = ReactionSystem.from_string("A -> B; 3; name='first'\nB -> C; 4; name='second'", substance_factory=Substance)
+        texts = {k: rs.string(**kw) for k, kw in (("default", {}), ("no_name", dict(with_name=False)), ("no_param", dict(with_param=False)), ("neither", dict(with_param=False, with_name=False)))}
+        lines = {k: t.split("\n") for k, t in texts.items()}
+        named = lambda ls, stems: (len(ls) == 3 and ls[2] == "" and all(l.startswith(st + "; ") and nm in l[len(st) + 2:] for l, st, nm in zip(ls, stems, ("first", "second"))))
+        sw = {"no_name": texts["no_name"] == "A -> B; 3\nB -> C; 4\n", "neither": texts["neither"] == "A -> B\nB -> C\n",
+              "default": named(lines["default"], ("A -> B; 3", "B -> C; 4")),
+              "no_param": named(lines["no_param"], ("A -> B", "B -> C")) and not any(ch in texts["no_param"] for ch in "34")}
+        det = repr({k: texts[k] for k, ok in sw.items() if not ok})
     except Exception as ex:
-        ok3 = False
-    v.prove("text_without_names_parses_back", ok3)
+        sw, det, texts = {"raised": False}, repr(ex)[:200], {}
+    v.prove("system_text_switches_are_independent", all(sw.values()), detail=det)
+    # the two name-free texts parse back: same reactions in order, same parameters (none for 'neither'), the class of the system, and NO names
+    try:
+        got = {k: (lambda b: (type(b), [(type(r), dict(r.reac), dict(r.prod), r.param, r.name) for r in b.rxns]))(ReactionSystem.from_string(texts[k], substance_factory=Substance)) for k in ("no_name", "neither")}
+        ok3 = got == {"no_name": (ReactionSystem, [(Reaction, {"A": 1}, {"B": 1}, 3, None), (Reaction, {"B": 1}, {"C": 1}, 4, None)]),
+                      "neither": (ReactionSystem, [(Reaction, {"A": 1}, {"B": 1}, None, None), (Reaction, {"B": 1}, {"C": 1}, None, None)])}
+    except Exception as ex:
+        ok3, got = False, repr(ex)[:200]
+    v.prove("text_without_names_parses_back", ok3, detail=repr(got))
